@@ -43,11 +43,18 @@ def ctype_name(n):
     return 'TYPE%d' % n
 
 
+def _hash_tok(s):
+    import zlib
+    return 10 ** 7 + zlib.crc32(s.encode('utf-8'))
+
+
 def tok_of_name(s, prefix):
+    """token-style names map back to their token; any other name to a stable hash (>= 10^7)"""
     if s == INCOMPLETE:
         return 0
-    assert s.startswith(prefix), (s, prefix)
-    return int(s[len(prefix):])
+    if s is not None and s.startswith(prefix) and s[len(prefix):].isdigit():
+        return int(s[len(prefix):])
+    return _hash_tok(s or '')
 
 
 def rc_name(n):
@@ -61,8 +68,9 @@ def rc_name(n):
 def rc_tok(name):
     if name in STD_RC:
         return STD_RC.index(name)
-    assert name.startswith('CUSTOM_N'), name
-    return 1000 + int(name[len('CUSTOM_N'):])
+    if name.startswith('CUSTOM_N') and name[len('CUSTOM_N'):].isdigit():
+        return 1000 + int(name[len('CUSTOM_N'):])
+    return _hash_tok(name)
 
 
 def rc_map(dump):
@@ -88,9 +96,11 @@ def trait_name(t):
 
 
 def trait_tok(name):
-    if name.startswith('CUSTOM_T'):
+    if name.startswith('CUSTOM_T') and name[len('CUSTOM_T'):].isdigit():
         return CUSTOM_TRAIT_BASE + int(name[len('CUSTOM_T'):])
-    return STD_TRAITS.index(name)
+    if name in STD_TRAITS:
+        return STD_TRAITS.index(name)
+    return _hash_tok(name)
 
 
 def ratio_me(x):
